@@ -200,3 +200,11 @@ Definition ident_value (src : bytes) : option (list Z) :=
   | Some cps => option_map (flat_map utf16_units) (irun INormal cps)
   | None => None
   end.
+
+(* ---------- PropertyName (13.2.5): LiteralPropertyName :: IdentifierName | StringLiteral ----------
+   the property key (as UTF-16 code units) a printed key text denotes *)
+Definition key_value (out : bytes) : option (list Z) :=
+  match out with
+  | q :: _ => if (q =? 34) || (q =? 39) || (q =? 96) then literal_value out else ident_value out
+  | [] => None
+  end.
